@@ -10,6 +10,7 @@ CONSTANTS
   MaxResets = 1
   MaxByz = 1
   Variant = "ge_work"
+  ProbeHeights = {}
   FullChainUpTo = 0
 VIEW View
 INVARIANTS TypeOK
